@@ -569,5 +569,9 @@ end
 /-- Owners used by the harness. -/
 def Owner.pen : Owner := ⟨fun _ => false, fun ev => ev = 1, false, some 7⟩
 def Owner.term : Owner := ⟨fun ev => decide (ev ≥ 2), fun ev => decide (1 ≤ ev ∧ ev ≤ 3), false, none⟩
+/-- a window (`DEFINE_BINDINGS_FUNCS(window,…)` in `src/window.c`): GEOMCHANGE (1), EXPOSE (2) and FOCUS (3) are delivered by
+    `run_events`, KEY (4) and MOUSE (5) by `run_events_whilefalse` (`_handle_key` / `_handle_mouse`, which hold a reference of
+    their own on the window around the walk) -/
+def Owner.win : Owner := ⟨fun ev => decide (ev ≥ 4), fun ev => decide (1 ≤ ev ∧ ev ≤ 5), false, none⟩
 
 end Tickit.Bindings
